@@ -12,3 +12,24 @@ TABLE = {
          "level": "Exploration (enumeration of a finite option space on a few dataset shapes): every documented metric/diagram x -x dimension x output type x variant is executed in-process; the outcome must be output or error message + non-zero exit. Quick = pairwise-covering sample (~8k command lines), thorough = full product (~190k).",
          "note": TB + "; figures are drawn on the Agg backend without saving", "design": "DESIGN.md 4/C19"},
 }
+
+TABLE.update({
+ "C05": {"technique": "runtime monitoring: textbook-formula reference oracle on generated vectors and datasets; perfect-score and never-better monitors",
+         "level": "Exploration: every deterministic metric x aggregator on thousands of generated obs/fcst vectors (ties, constants, zeros, negatives, NaNs, empty) via compute_from_obs_fcst, on real Data objects (all axes incl. conditional obs/fcst axes) and through csv output, against pure-Python textbook formulas; undefined cases must be NaN/non-finite.",
+         "note": TB, "design": "DESIGN.md 4/C05"},
+ "C06": {"technique": "runtime monitoring: exhaustive 2x2-table enumeration against an independent formula table, symmetry monitors, conservation contract on the real counting function",
+         "level": "Exploration with an exhaustively enumerated finite sub-space: all tables with total <= 8 (quick) / 12 (thorough) x 25 metrics x 8 bin types, realised as obs/fcst vectors with unusable pairs; swap, complement-event and perfect-forecast relations; csv sample; icontract post-condition (a+b+c+d = #valid pairs, counts = documented events) on Contingency._compute_abcd during an ambient CLI workload.",
+         "note": TB, "design": "DESIGN.md 4/C06"},
+ "C07": {"technique": "runtime monitoring: documented truth table as data, exhaustive order-relation enumeration over all entry points, record-mode contracts on Interval.within/apply_threshold/get_intervals",
+         "level": "Exploration with the order-relation space enumerated completely (8 bin types x threshold orders x value relations incl. NaN/+-inf x 5 presentations x 7 entry points incl. CLI csv/figure read-back), plus contracts evaluated ~10^6 times on the real functions under a varied CLI workload.",
+         "note": TB, "design": "DESIGN.md 4/C07"},
+ "C11": {"technique": "runtime monitoring: independent civil-calendar oracle; partition/conservation trace invariants over recorded slices; exhaustive day enumeration 1900-2100",
+         "level": "Exploration + exhaustive conversions: all 73414 days through the five conversion functions; bucket functions on boundary-clustered times; on generated datasets the slices of every axis must partition the pooled cases (multiset union, counts, weighted mean), labels/descriptors/csv counts equal the reference.",
+         "note": TB, "design": "DESIGN.md 4/C11"},
+ "C13": {"technique": "runtime monitoring: reference CLI interpreter as oracle for grammar-generated command lines; metamorphic option-order and --config pairs; rejection-outcome classification in-process and via real subprocess exit status",
+         "level": "Exploration: full decimal grid for vector syntax, date ranges over calendar boundaries, the documented rejection list in several spellings (in-process and /venv/bin/verif subprocess), ~900 (quick) / ~25000 (thorough) generated command lines x 3 variants compared with an independent interpreter of the help text.",
+         "note": TB, "design": "DESIGN.md 4/C13"},
+ "C15": {"technique": "runtime monitoring: pure-Python statistic oracle per array lane; trailing-window reference model for -T through the real Data object and CLI",
+         "level": "Exploration: 14 aggregators + quantile levels on random 1-4-d arrays along every axis; -T/-Tagg/-Tx on generated text/NetCDF inputs with irregular grids, cell-by-cell against the window (l-h, l] of the same series, members / ensemble probabilities / ensemble quantiles included, csv end-to-end.",
+         "note": TB + "; float32 tolerance for pre-aggregated values", "design": "DESIGN.md 4/C15"},
+})
